@@ -17,13 +17,14 @@ type PropSpec struct {
 
 // Group selects functions by key pattern and the obligation classes that count for the property.
 type Group struct {
-	Funcs   string   // regexp over function keys
-	Except  string   // regexp of keys to skip
-	Classes []string // obligation classes kept (nil: all)
-	NoCt    bool     // ignore contracts (pure safety sweep)
-	OnlyCt  bool     // only functions that have a contract tagged with this property
-	Own     bool     // ownership discipline of deep copies (C17)
-	Narrow  bool     // value-changing integer conversions must be provably exact (C13)
+	Funcs        string   // regexp over function keys
+	Except       string   // regexp of keys to skip
+	Classes      []string // obligation classes kept (nil: all)
+	NoCt         bool     // ignore contracts (pure safety sweep)
+	OnlyCt       bool     // only functions that have a contract tagged with this property
+	AbstractConc bool     // ignore go statements / opaque channels
+	Own          bool     // ownership discipline of deep copies (C17)
+	Narrow       bool     // value-changing integer conversions must be provably exact (C13)
 }
 
 var safetyClasses = []string{"post", "unwind", "alloc", "index", "nil", "typeassert", "div", "shift", "panic", "pre", "auto-inv-init", "auto-inv-step", "auto-decreases", "decreases", "inv-init", "inv-step", "cover", "frame"}
@@ -149,7 +150,7 @@ func init() {
 		},
 		Assume: []string{
 			"ASSUMED, not proved: for the map-typed notations ([string map], [string multimap], [bytes map], named values) the writer and the length function agree (both range over a Go map; tied to one abstract length)",
-			"encLen(codec, message, version): the frame-level statements use one abstract length per (codec, message, version); it is discharged per codec by lemma functions that execute Encode and EncodedLength on the same message - for 12 of the 17 codecs (STARTUP, OPTIONS, READY, AUTHENTICATE, AUTH_CHALLENGE, AUTH_RESPONSE, AUTH_SUCCESS, SUPPORTED, QUERY, PREPARE, EXECUTE, REVISE); BATCH, RESULT, REGISTER, EVENT and ERROR are NOT under proof",
+			"encLen(codec, message, version): the frame-level statements use one abstract length per (codec, message, version); it is discharged per codec by lemma functions that execute Encode and EncodedLength on the same message - for 13 of the 17 codecs (STARTUP, OPTIONS, READY, AUTHENTICATE, AUTH_CHALLENGE, AUTH_RESPONSE, AUTH_SUCCESS, SUPPORTED, QUERY, PREPARE, EXECUTE, REVISE, ERROR); BATCH, RESULT, REGISTER and EVENT are NOT under proof; the reason map of the failure errors is tied to one abstract length by assumption",
 			"body length fits a signed 32-bit integer (precondition of encodeFrameUncompressed / EncodeRawFrame); messages are not modified while being encoded",
 			"the decoder half (DecodeFrame consumes header + BodyLength) and compressed bodies are not covered here",
 		}})
